@@ -115,6 +115,23 @@ def r2_directions(ctx):
                           '%s visits the whole element stack %s' % (short(k), 'in reverse stack order' if want_rev else 'in stack order'), h.where(),
                           {'form': 'counting loop', 'init': show(c['init'])[:80], 'step': c['step'], 'stay': c['stay'][0], 'index': show(it)[:80] if it else None})
             continue
+        if not its and not hooks:
+            # consumer form: `items.iter_mut()[.rev()].for_each(|e| { e.event_end(); .. })` / `.fold(msg, |msg, e| { e.event_start(); .. })`
+            ws = per_item_calls(ctx.P, f, 'des::net::processing::ProcessingElement::' + hook)
+            ws = [w for w in ws if w.form == 'consumer']
+            if ctx.floor('element traversal in %s' % short(k), len(ws), 1):
+                w = ws[0]
+                src = w.it if w.it is not None else ('unknown',)
+                over_items = any(x[0] == 'field' and x[2] == _items_field(ctx.P) for x in walk(src))
+                adaptors = [x[1].split('::')[-1] for x in walk(src) if x[0] == 'call' and x[1].startswith(('std::iter::', '<std::iter::')) or
+                            (x[0] == 'call' and x[1].split('::')[-1] in ('rev', 'skip', 'take', 'step_by', 'filter', 'chain', 'zip', 'skip_while', 'take_while', 'filter_map'))]
+                is_rev = adaptors.count('rev') % 2 == 1
+                others = [a_ for a_ in adaptors if a_ not in ('rev', 'iter', 'iter_mut', 'into_iter', 'by_ref')]
+                ctx.check(over_items and is_rev == want_rev and not others and w.exhaustive, 'direction:%s' % k.split('::')[-1],
+                          '%s visits the whole element stack %s' % (short(k), 'in reverse stack order' if want_rev else 'in stack order'), w.site.where(),
+                          {'form': 'consumer', 'iterator': show(src)[:160], 'exhaustive': w.exhaustive})
+                ctx.check(w.trees is not None and from_item(w.fn, w.trees[0]), 'element-from-loop:%s' % hook, '%s is called on the element selected by the traversal' % hook, w.site.where())
+            continue
         if not (ctx.floor('element loop in %s' % short(k), len(its), 1) and ctx.floor('%s call' % hook, len(hooks), 1)):
             continue
         for (s, ty) in its:
@@ -138,6 +155,14 @@ def r2_directions(ctx):
 def r3_per_element(ctx):
     ctx.set_rule('C14.R3')
     f = ctx.anchor(PR + 'incoming_upstream')
+    f_outer = f
+    consumer = None
+    if f and not any(s.callee == 'des::net::processing::ProcessingElement::event_start' for s in f.calls()):
+        # consumer form (fold / for_each): the per-element body is the closure
+        ws = [w for w in per_item_calls(ctx.P, f, 'des::net::processing::ProcessingElement::event_start') if w.form == 'consumer']
+        if ws:
+            consumer = ws[0]
+            f = consumer.fn
     if f:
         st = [s for s in f.calls() if s.callee == 'des::net::processing::ProcessingElement::event_start']
         inc = [s for s in f.calls() if s.callee == 'des::net::processing::ProcessingElement::incoming']
@@ -181,7 +206,11 @@ def r3_per_element(ctx):
                     ctx.check(bool(same), 'same-element', 'event_start and incoming address the same element', i.where())
         # every returning path leaves the loop through exhaustion: every element got event_start
         n = 0
-        for path, outcome, decs in fn_paths(ctx, f):
+        if consumer is not None:
+            ctx.check(consumer.exhaustive, 'no-early-exit', 'incoming_upstream runs its per-element body for every element (an exhaustive consumer, body without early exit)', consumer.site.where())
+            n = 2
+            f = None
+        for path, outcome, decs in (fn_paths(ctx, f) if f else []):
             if outcome != 'return':
                 continue
             n += 1
@@ -194,6 +223,11 @@ def r3_per_element(ctx):
                       f.where_path(path), outs)
         ctx.floor('returning paths of incoming_upstream', n, 2)
     g = ctx.anchor(PR + 'incoming_downstream')
+    if g and not _loop_iter_types(g) and not counting_loops(g):
+        ws = [w for w in per_item_calls(ctx.P, g, 'des::net::processing::ProcessingElement::event_end') if w.form == 'consumer']
+        if ws:
+            ctx.check(ws[0].exhaustive and g.postdominates(ws[0].anchor, 0), 'down-no-early-exit', 'incoming_downstream calls event_end for every element', ws[0].site.where())
+            g = None
     if g:
         for path, outcome, decs in fn_paths(ctx, g):
             if outcome != 'return':
